@@ -214,27 +214,37 @@ fn periodic_phase(prop: &str, cfgs: Vec<Cfg>, o: Oracles, thorough: bool) -> Pha
 /// Scale phase: from start states built with bulk appends, the core alphabet
 /// plus bulk appends for a few more levels.
 fn scale_phase(prop: &str, cfgs: Vec<Cfg>, o: Oracles, thorough: bool) -> Phase {
-    let mut s = spec(prop, Alpha::Scale, if thorough { 3 } else { 2 }, cfgs, o, if thorough { 1500 } else { 40 });
+    // chunk limits in the hundreds: bulk appends of 130 entries (caches above a
+    // hundred entries, chunks of more than 255 records)
+    let mut s = spec(prop, Alpha::ScaleBig, if thorough { 3 } else { 2 }, cfgs, o, if thorough { 1500 } else { 30 });
     s.roots = vec![
-        vec!["append_bulk40"],
         vec!["append_bulk130"],
-        vec!["append_bulk40", "purge_mid"],
         vec!["append_bulk130", "append_bulk130"],
         vec!["append_bulk130", "append_bulk130", "flush"],
         vec!["append_bulk130", "append_bulk130", "append_bulk130"],
+    ];
+    Phase { name: "scale (large chunks): bulk appends of 130 entries (caches above a hundred entries, chunks above 255 records)", spec: s }
+}
+
+fn scale_small_phase(prop: &str, cfgs: Vec<Cfg>, o: Oracles, thorough: bool) -> Phase {
+    // one or two records per chunk: a 40-entry append makes 40 chunk files, a purge
+    // then removes dozens of them
+    let mut s = spec(prop, Alpha::ScaleSmall, if thorough { 3 } else { 2 }, cfgs, o, if thorough { 1500 } else { 30 });
+    s.roots = vec![
+        vec!["append_bulk40"],
+        vec!["append_bulk40", "purge_mid"],
         vec!["append_bulk40", "append_bulk40", "append_bulk40", "purge_mid", "flush"],
     ];
-    Phase { name: "scale: bulk appends of 40 / 130 entries (dozens of rotations and chunk removals, caches above a hundred entries)", spec: s }
+    Phase { name: "scale (tiny chunks): bulk appends of 40 entries (dozens of rotations and chunk removals)", spec: s }
 }
 
 /// The journal starts just below a power-of-two offset and crosses it within
 /// the first records (2^16, 2^32, 2^40): offsets narrower than u64 would wrap.
 fn high_offset_phase(prop: &str, o: Oracles, thorough: bool) -> Phase {
-    let cfgs = vec![
-        Cfg::records(3).starting_at((1u64 << 32) - 40),
-        Cfg::records(2).starting_at((1u64 << 16) - 30),
-        Cfg::records(3).starting_at((1u64 << 40) - 70),
-    ];
+    let mut cfgs = vec![Cfg::records(3).starting_at((1u64 << 32) - 40), Cfg::records(2).starting_at((1u64 << 16) - 30)];
+    if thorough {
+        cfgs.push(Cfg::records(3).starting_at((1u64 << 40) - 70));
+    }
     let s = spec(prop, Alpha::Core, if thorough { 4 } else { 3 }, cfgs, o, if thorough { 900 } else { 30 });
     Phase { name: "journal starting just below offsets 2^16, 2^32, 2^40 (crossed within the first records)", spec: s }
 }
@@ -290,7 +300,8 @@ pub fn seq_phases(prop: &str, tier: &str) -> Vec<Phase> {
                         },
                     },
                     periodic_phase(prop, vec![Cfg::records(2), Cfg::records(3)], o.clone(), thorough),
-                    scale_phase(prop, vec![Cfg::records(2), Cfg::records(300)], o.clone(), thorough),
+                    scale_phase(prop, vec![Cfg::records(300)], o.clone(), thorough),
+                    scale_small_phase(prop, vec![Cfg::records(2)], o.clone(), thorough),
                     high_offset_phase(prop, o.clone(), thorough),
                 ]
             } else {
@@ -312,7 +323,8 @@ pub fn seq_phases(prop: &str, tier: &str) -> Vec<Phase> {
                         },
                     },
                     periodic_phase(prop, vec![Cfg::records(2), Cfg::records(3)], o.clone(), thorough),
-                    scale_phase(prop, vec![Cfg::records(2), Cfg::records(300)], o.clone(), thorough),
+                    scale_phase(prop, vec![Cfg::records(300)], o.clone(), thorough),
+                    scale_small_phase(prop, vec![Cfg::records(2)], o.clone(), thorough),
                     high_offset_phase(prop, o.clone(), thorough),
                 ]
             }
@@ -345,8 +357,16 @@ pub fn seq_phases(prop: &str, tier: &str) -> Vec<Phase> {
                 Phase { name: "tiny alphabet + restarts, deeper", spec: t },
                 p,
                 {
-                    let mut sc = scale_phase(prop, vec![Cfg::records(2), Cfg::records(300).with_cache(Some(2), None)], Oracles { semantics: true, restart_epilogue: true, ..Default::default() }, thorough);
+                    let mut sc = scale_phase(prop, vec![Cfg::records(300)], Oracles { semantics: true, restart_epilogue: true, ..Default::default() }, thorough);
+                    sc.spec.depth = if thorough { 2 } else { 1 };
                     sc.spec.reopen_cfgs = reopen_cfgs[..2].to_vec();
+                    sc.spec.max_reopens = 1;
+                    sc
+                },
+                {
+                    let mut sc = scale_small_phase(prop, vec![Cfg::records(2)], Oracles { semantics: true, restart_epilogue: true, ..Default::default() }, thorough);
+                    sc.spec.depth = if thorough { 2 } else { 1 };
+                    sc.spec.reopen_cfgs = reopen_cfgs[..1].to_vec();
                     sc.spec.max_reopens = 1;
                     sc
                 },
@@ -384,7 +404,7 @@ pub fn seq_phases(prop: &str, tier: &str) -> Vec<Phase> {
                 restart_epilogue: true,
                 ..Default::default()
             };
-            let mut s = spec(prop, Alpha::Core, if thorough { 6 } else { 4 }, vec![Cfg::records(3)], o.clone(), if thorough { 1500 } else { 30 });
+            let mut s = spec(prop, Alpha::Core, if thorough { 6 } else { 4 }, vec![Cfg::records(3)], o.clone(), if thorough { 1500 } else { 45 });
             s.max_refused = if thorough { 2 } else { 1 };
             s.refused_level = if thorough { 2 } else { 0 };
             let mut t = spec(
@@ -397,9 +417,15 @@ pub fn seq_phases(prop: &str, tier: &str) -> Vec<Phase> {
             );
             t.max_refused = if thorough { 2 } else { 1 };
             t.refused_level = if thorough { 2 } else { 1 };
+            // long batches (300 / 1100 entries) with a refused entry in the middle, at
+            // the empty log and after every single operation
+            let mut lb = spec(prop, Alpha::Core, 2, vec![Cfg::default(), Cfg::records(300)], Oracles { semantics: true, refused_no_trace: true, restart_epilogue: true, ..Default::default() }, if thorough { 600 } else { 30 });
+            lb.max_refused = 1;
+            lb.refused_level = 3;
             vec![
                 Phase { name: "core alphabet with refused calls at every state, continued by legal operations (rotation every 2 writes)", spec: s },
                 Phase { name: "same, other chunk limits", spec: t },
+                Phase { name: "refused long batches (300 / 1100 entries, lower-term entry in the middle)", spec: lb },
             ]
         }
         "C11" => {
@@ -433,8 +459,17 @@ pub fn seq_phases(prop: &str, tier: &str) -> Vec<Phase> {
                             s
                         },
                     },
-                    periodic_phase(prop, vec![Cfg::records(2), Cfg::records(3), Cfg::size(100)], o.clone(), thorough),
-                    scale_phase(prop, vec![Cfg::records(1), Cfg::records(300)], o.clone(), thorough),
+                    periodic_phase(prop, if thorough { vec![Cfg::records(2), Cfg::records(3), Cfg::size(100)] } else { vec![Cfg::records(2), Cfg::size(100)] }, o.clone(), thorough),
+                    {
+                        let mut p = scale_phase(prop, vec![Cfg::records(300)], o.clone(), thorough);
+                        p.spec.depth = if thorough { 3 } else { 1 };
+                        p
+                    },
+                    {
+                        let mut p = scale_small_phase(prop, vec![Cfg::records(2)], o.clone(), thorough);
+                        p.spec.depth = if thorough { 3 } else { 1 };
+                        p
+                    },
                     high_offset_phase(prop, o.clone(), thorough),
                 ]
             } else {
@@ -452,8 +487,17 @@ pub fn seq_phases(prop: &str, tier: &str) -> Vec<Phase> {
                             s
                         },
                     },
-                    periodic_phase(prop, vec![Cfg::records(2), Cfg::records(3), Cfg::size(100)], o.clone(), thorough),
-                    scale_phase(prop, vec![Cfg::records(1), Cfg::records(300)], o.clone(), thorough),
+                    periodic_phase(prop, if thorough { vec![Cfg::records(2), Cfg::records(3), Cfg::size(100)] } else { vec![Cfg::records(2), Cfg::size(100)] }, o.clone(), thorough),
+                    {
+                        let mut p = scale_phase(prop, vec![Cfg::records(300)], o.clone(), thorough);
+                        p.spec.depth = if thorough { 3 } else { 1 };
+                        p
+                    },
+                    {
+                        let mut p = scale_small_phase(prop, vec![Cfg::records(2)], o.clone(), thorough);
+                        p.spec.depth = if thorough { 3 } else { 1 };
+                        p
+                    },
                     high_offset_phase(prop, o.clone(), thorough),
                 ]
             }
@@ -1348,7 +1392,7 @@ pub fn c14_specs(tier: &str) -> Vec<crate::c14::C14Spec> {
                     // a worker that fails (EIO at a write, fdatasync or unlink): quick tier for
                     // the shapes with work pending behind the last acknowledgement
                     let pending_removal0 = prefix.iter().any(|o| matches!(o, SOp::W(crate::model::Op::Purge(_))));
-                    if thorough || (pending_removal0 && tail == 0 && plen <= 2) || (plen == 0 && tail >= 1 && c.max_records == Some(2)) {
+                    if thorough || (pending_removal0 && tail == 0 && plen <= 2) || (plen == 0 && tail == 1 && c.max_records == Some(2)) {
                         out.push(crate::c14::C14Spec { prop: "C14".to_string(), phase1: syms_ops.clone(), cfg: c, max_executions: 300_000, unwind_drop: false, worker_faults: true, caller_first_only: false });
                     }
                     // the same, dropped by unwinding: quick tier for the purge prefixes
@@ -1396,6 +1440,9 @@ pub fn reader_specs(tier: &str) -> Vec<crate::readers::ReaderSpec> {
                 hist: schedx::from_syms(&sh),
                 cfg: Cfg::records(3).with_cache(items, cap),
                 max_executions: if thorough { 400_000 } else { 60_000 },
+                // the shapes with entries of 40 000 / 70 000 bytes cost tens of
+                // milliseconds per execution: bounded passes only in the quick tier
+                bounded_only: !thorough && sh.iter().any(|o| matches!(o, Sym::Ahuge | Sym::Agiant)),
             });
         }
     }
